@@ -159,14 +159,25 @@ pub fn execute(p: &Program, prefix: &[usize], all_points: bool) -> (ExecResult, 
     if x.deadlock.is_none() {
         let mut w = world;
         for h in [0u8, 1] {
-            let sc = w.real_scrape(true, &[h]);
-            let vu = ValidUntil::new_raw(SecondsSinceServerStart::new_raw(LIVE_DEADLINE));
-            let (s, l, peers, _) = w.real_announce(h, PROBE_KEY, Kind::Stop5, 0, 0, true, vu).unwrap();
-            let set: BTreeSet<(IpAddr, u16)> = peers.into_iter().collect();
-            if sc != vec![(s, l)] {
-                fin.insert(100 + h, (sc[0].0, sc[0].1, BTreeSet::new()));
+            let r = std::panic::catch_unwind(std::panic::AssertUnwindSafe(|| {
+                let sc = w.real_scrape(true, &[h]);
+                let vu = ValidUntil::new_raw(SecondsSinceServerStart::new_raw(LIVE_DEADLINE));
+                let (s, l, peers, _) = w.real_announce(h, PROBE_KEY, Kind::Stop5, 0, 0, true, vu).unwrap();
+                (sc, s, l, peers)
+            }));
+            match r {
+                Ok((sc, s, l, peers)) => {
+                    let set: BTreeSet<(IpAddr, u16)> = peers.into_iter().collect();
+                    if sc != vec![(s, l)] {
+                        fin.insert(100 + h, (sc[0].0, sc[0].1, BTreeSet::new()));
+                    }
+                    fin.insert(h, (s, l, set));
+                }
+                Err(_) => {
+                    // the storage code panicked on a quiescent read: reported as an inconsistent final state
+                    fin.insert(100 + h, (-1, -1, BTreeSet::new()));
+                }
             }
-            fin.insert(h, (s, l, set));
         }
     }
     (x, hist, fin)
